@@ -700,6 +700,79 @@ def format_str(E, fmt, arg):
     return FmtStr(fmt, parts)
 
 
+def str_pieces(v):
+    """Canonical form of a structured string: a list of literal str pieces and atoms (IntTok-like tokens, FmtStr('int', (x,)) for a
+    formatted integer, opaque objects), adjacent literals merged - the same list whether the text was built with `+`, `%`, str.join,
+    an f-string or str.format-free code.  None when some part has no flat form (width/precision specs, %r ...)."""
+    out = []
+
+    def lit(t):
+        if t == "":
+            return
+        if out and isinstance(out[-1], str):
+            out[-1] += t
+        else:
+            out.append(t)
+
+    def walk(x):
+        if isinstance(x, str):
+            lit(x)
+            return True
+        if isinstance(x, (int,)) and not isinstance(x, bool):
+            lit(str(x))
+            return True
+        if isinstance(x, SInt):
+            out.append(FmtStr("int", (x,)))
+            return True
+        if isinstance(x, FmtStr):
+            if x.fmt == "concat":
+                return walk(x.args[0]) and walk(x.args[1])
+            if x.fmt == "join":
+                sep, parts = x.args
+                for i, p_ in enumerate(parts):
+                    if i and not walk(sep):
+                        return False
+                    if not walk(p_):
+                        return False
+                return True
+            if x.fmt in ("encode", "f-string"):
+                if x.fmt == "encode":
+                    return walk(x.args[0])
+                return all(walk(p_) for p_ in x.args)
+            if x.fmt in ("int", "tok", "obj", "str", "desc_hdr", "<obj>"):
+                out.append(x)
+                return True
+            if "%" in x.fmt:
+                # a %-format with plain conversions only
+                pos, args = 0, list(x.args)
+                for m in _SPEC.finditer(x.fmt):
+                    lit(x.fmt[pos:m.start()].replace("%%", "%"))
+                    pos = m.end()
+                    if m.group(5) == "%":
+                        lit("%")
+                        continue
+                    if m.group(1) or m.group(2) or m.group(3) or m.group(4) or not args:
+                        return False
+                    a = args.pop(0)
+                    if m.group(5) in "diu":
+                        if isinstance(a, int) and not isinstance(a, bool):
+                            lit(str(a))
+                        else:
+                            out.append(FmtStr("int", (a,)))
+                    elif m.group(5) == "s":
+                        if not walk(a):
+                            return False
+                    else:
+                        return False
+                lit(x.fmt[pos:].replace("%%", "%"))
+                return True
+            out.append(x)
+            return True
+        out.append(x)            # token objects (IntTok, BadTok, ...)
+        return True
+    return out if walk(v) else None
+
+
 def str_concat(a, b):
     if isinstance(a, str) and isinstance(b, str):
         return a + b
@@ -1201,6 +1274,33 @@ def str_method(E, s, name, args, kwargs):
             return getattr(s, name)(*args, **kwargs)
         except Exception as ex:
             E.raise_(type(ex), str(ex), implicit="str")
+    if name == "format" and isinstance(s, str) and not kwargs:
+        # "...{}...{}".format(a, b): auto-numbered or explicitly numbered plain fields only
+        import string as _string
+        parts, auto = [], 0
+        try:
+            fields = list(_string.Formatter().parse(s))
+        except ValueError as ex:
+            E.raise_(ValueError, str(ex), implicit="format")
+        for lit, field, spec, conv in fields:
+            if lit:
+                parts.append(lit)
+            if field is None:
+                continue
+            if spec or conv not in (None, "s"):
+                raise Unsupported("str.format with a format spec / conversion")
+            if field == "":
+                idx, auto = auto, auto + 1
+            elif field.isdigit():
+                idx = int(field)
+            else:
+                raise Unsupported("str.format with a named / attribute field")
+            if idx >= len(args):
+                E.raise_(IndexError, "Replacement index %d out of range for positional args tuple" % idx, implicit="format")
+            parts.append(str_of(E, args[idx]))
+        if all(isinstance(x, str) for x in parts):
+            return "".join(parts)
+        return FmtStr("f-string", parts)
     if name in ("strip", "rstrip", "lstrip") and isinstance(s, FmtStr):
         return FmtStr(name, (s,) + tuple(args))
     if name == "encode":
@@ -1538,6 +1638,16 @@ def m_sum(E, it, start=0):
     for x in vals:
         r = int_binop(E, ast.Add, r, x)
     return wrap_int(r) if not isinstance(r, int) else r
+
+
+@register(reversed)
+def m_reversed(E, it):
+    """reversed(xs) over a concrete-length sequence, evaluated eagerly"""
+    if isinstance(it, (list, tuple, str, bytes, range)):
+        return list(reversed(it))
+    if isinstance(it, SSeq) and isinstance(it.length, int):
+        return [it.get(it.length - 1 - i) for i in range(it.length)]
+    raise Unsupported("reversed() of a symbolic-length sequence")
 
 
 @register(divmod)
